@@ -265,6 +265,26 @@ type muxCall struct {
 	seq    int
 }
 
+// deadlineCtx: a context with a fixed Deadline whose expiry is triggered by the harness
+type deadlineCtx struct {
+	deadline time.Time
+	done     chan struct{}
+	once     sync.Once
+}
+
+func (d *deadlineCtx) Deadline() (time.Time, bool) { return d.deadline, true }
+func (d *deadlineCtx) Done() <-chan struct{}       { return d.done }
+func (d *deadlineCtx) Err() error {
+	select {
+	case <-d.done:
+		return context.DeadlineExceeded
+	default:
+		return nil
+	}
+}
+func (d *deadlineCtx) Value(key interface{}) interface{} { return nil }
+func (d *deadlineCtx) expire()                           { d.once.Do(func() { close(d.done) }) }
+
 const stepWait = 2 * time.Second
 
 func waitArr(g *rigGate, what string) error {
@@ -421,9 +441,14 @@ func runMuxSchedule(kinds string, evs []string) (string, error) {
 		case 'B', 'D':
 			mc.reply = &rigReply{Tag: -1}
 			ctx, cancel := context.WithCancel(context.Background())
-			if kinds[i] == 'D' { // a caller with a deadline: "cancel" = letting the deadline pass
+			if kinds[i] == 'D' {
+				// a caller with a deadline.  Its Deadline() is real (150 ms from now: code that
+				// looks at it sees a short one) but its Done channel is closed by the schedule's
+				// `c` event – after the deadline has really passed – so a slow run cannot make the
+				// deadline fire at a point the schedule does not say
 				mc.deadline = time.Now().Add(150 * time.Millisecond)
-				ctx, cancel = context.WithDeadline(context.Background(), mc.deadline)
+				dctx := &deadlineCtx{deadline: mc.deadline, done: make(chan struct{})}
+				ctx, cancel = dctx, dctx.expire
 			}
 			mc.cancel = cancel
 			mc.retCh = make(chan error, 1)
@@ -776,9 +801,8 @@ func runMuxSchedule(kinds string, evs []string) (string, error) {
 					if d := time.Until(mc.deadline); d > 0 {
 						time.Sleep(d + 2*time.Millisecond)
 					}
-				} else {
-					mc.cancel()
 				}
+				mc.cancel()
 				select {
 				case e := <-mc.retCh:
 					mc.ret = &e
